@@ -61,6 +61,15 @@ def run(ck):
     r = ck.mc('Btdmp', 'MC_Btdmp_pinned_p0.cfg', workers=2, must_hold=False, coverage=False)
     if r.violated != 'SkipNeverFails':
         raise vlib.Infra('the pinned Btdmp::Skip model no longer violates SkipNeverFails at period 0 (model drifted)')
+    # 2b. real constants (16-bit phase and period, capacity 16, k up to 2^31), symbolically: on the length abstraction of the
+    #     port, the induction step Skip(k+1) = Tick(Skip(k)) below the horizon (same state, one more frame exactly when the tick
+    #     transmits, no interrupt), Skip(0) = identity, the horizon is tight for positive periods, and the facts about reachable
+    #     states these lemmas assume (exact flags, phase < 65535) are inductive over every call (Apalache on BtdmpInd.tla);
+    #     TLC checks for ALL concrete port states at the scaled constants that BtdmpInd's operators are the length
+    #     abstraction of Btdmp.tla's (which frame carries which word is order of pops alone: SkipIsTicks above)
+    ck.mc('BtdmpIndSame', 'MC_BtdmpIndSame.cfg', workers=4, coverage=False)
+    for lemma in ('IndLemma', 'ZeroLemma', 'HorizonLemma', 'StepLemma'):
+        ck.apalache('BtdmpInd', 'BtdmpInd.cfg', lemma, timeout=1800)
     # 3. impl -> spec (the directed history first: it tells which Skip the tree has)
     directed(ck)
     files = record(ck)
@@ -81,8 +90,10 @@ def run(ck):
     ck.extra_cov['trace_cfg'] = trace_cfg()
     ck.assumptions += ['Btdmp.tla is a faithful reading of the C16 statement and of src/btdmp.md (reviewed by hand)',
                        'TLC, the Json/IOUtils community modules and g++ are trusted',
-                       'capacity 16, 16-bit words and periods up to 65535 are covered by trace validation and by '
-                       'the scaled exhaustive models, not by exhaustive enumeration at full width',
+                       'capacity 16, 16-bit words and periods up to 65535: the counting part of Skip(k) = Tick^k (phase, queue '
+                       'length, flags, number of frames, no interrupt) is proved for all states by Apalache/SMT on the length '
+                       'abstraction (BtdmpInd.tla); queue contents and multi-call histories are exhaustive at the scaled constants '
+                       'and sampled at full width by trace validation; Apalache and Z3 are trusted',
                        'Skip(k) for k beyond the reported horizon is outside the statement; the recorder goes there '
                        'only to bind the deliberate assertion, and ends that history',
                        'the interrupt handler is installed (Tick on an object without one throws '
